@@ -8,6 +8,14 @@ import sys
 LAYERS = {
     "store": ("harness.store_adapter", "run_script", "Trace_FimStore", "Trace_FimStore.cfg", "backend"),
     "topo": ("harness.topo_adapter", "run_script", "Trace_FimTopology", "Trace_FimTopology.cfg", "flavour"),
+    "adm": ("harness.adm_adapter", "run_script", "Trace_FimADM", "Trace_FimADM.cfg", None),
+    "capacity": ("harness.value_adapter", "run_capacity_script", "Trace_FimCapacity", "Trace_FimCapacity.cfg", "scale"),
+    "catalog": ("harness.value_adapter", "run_catalog_script", "Trace_FimCatalog", "Trace_FimCatalog.cfg", None),
+    "cbm": ("harness.cbm_adapter", "run_script", "Trace_FimCBM", "Trace_FimCBM.cfg", None),
+    "codec": ("harness.value_adapter", "run_codec_script", "Trace_FimCodec", "Trace_FimCodec.cfg", None),
+    "conv": ("harness.conv_adapter", "run_script", "Trace_FimSliverConv", "Trace_FimSliverConv.cfg", None),
+    "delegation": ("harness.value_adapter", "run_delegation_script", "Trace_FimDelegation", "Trace_FimDelegation.cfg", "variant"),
+    "sliverdiff": ("harness.diff_adapter", "run_script", "Trace_FimSliverDiff", "Trace_FimSliverDiff.cfg", None),
 }
 
 
@@ -28,7 +36,9 @@ def main():
         print("rejects:", [(r.clause) for r in rep.rejects])
         sys.exit(1 if rep.rejects else 0)
     mod, fn, tmod, tcfg, vkey = LAYERS[layer]
-    variant = {vkey: d["sig"]["variant"]}
+    variant = {vkey: d["sig"]["variant"]} if vkey else {}
+    if vkey in ("scale",):
+        variant[vkey] = int(variant[vkey])
     if d.get("detail", {}).get("fmt"):
         variant["fmt"] = d["detail"]["fmt"]
     traces = pipeline.exec_scripts(mod, fn, [d["script"]], [variant], procs=1)
